@@ -308,6 +308,14 @@ func checkTransitionFirst(c *report.Ctx, f *ssa.Function, transitions []string, 
 				errBlocks = append(errBlocks, b)
 			}
 		}
+		// a shared tail that does nothing but return (the join after an if/else chain) belongs to the edge
+		for i := 0; i < len(errBlocks); i++ {
+			for _, s := range errBlocks[i].Succs {
+				if !containsBlock(errBlocks, s) && inertTail(s) {
+					errBlocks = append(errBlocks, s)
+				}
+			}
+		}
 		rendered, returned, effects := false, false, 0
 		for _, b := range errBlocks {
 			for _, ins := range b.Instrs {
@@ -345,6 +353,41 @@ func checkTransitionFirst(c *report.Ctx, f *ssa.Function, transitions []string, 
 		c.Check("R-NOEFFECT", sprintf("%s/refusal%d", name, ti), "a refused transition is answered with 403 "+constString(c, errTypeConst)+" and the handler returns without any effect", len(errBlocks) > 0 && rendered && returned && effects == 0 && !flowsOn,
 			an.InstrPos(t), len(errBlocks), "error-edge blocks: %d, renders 403 with the error type: %v, returns: %v, effect calls on the edge: %d, falls through to the accepted path: %v", len(errBlocks), rendered, returned, effects, flowsOn)
 	}
+}
+
+func containsBlock(bs []*ssa.BasicBlock, b *ssa.BasicBlock) bool {
+	for _, x := range bs {
+		if x == b {
+			return true
+		}
+	}
+	return false
+}
+
+// inertTail: everything reachable from b only joins and returns (no call, store, send or branch on a value).
+func inertTail(b *ssa.BasicBlock) bool {
+	seen := map[*ssa.BasicBlock]bool{}
+	var walk func(b *ssa.BasicBlock) bool
+	walk = func(b *ssa.BasicBlock) bool {
+		if seen[b] {
+			return true
+		}
+		seen[b] = true
+		for _, ins := range b.Instrs {
+			switch ins.(type) {
+			case *ssa.Return, *ssa.Jump, *ssa.Phi, *ssa.DebugRef:
+			default:
+				return false
+			}
+		}
+		for _, s := range b.Succs {
+			if !walk(s) {
+				return false
+			}
+		}
+		return true
+	}
+	return walk(b)
 }
 
 // constString resolves "pkg.Name" of a string constant.
